@@ -121,7 +121,8 @@ def export(t, case, d):
         t.to_tsv(direct_io=sio, **kw)
         return sio.getvalue()
     # the real `biom convert --to-tsv` command on a JSON file of the table
-    from biom.cli.table_converter import convert
+    from ..cli import command
+    convert = command("convert")
     src = os.path.join(d, "export-src.biom")
     with open(src, "w", encoding="utf8") as f:
         f.write(t.to_json("vf"))
@@ -165,6 +166,16 @@ def importer(text, case, d):
     p = os.path.join(d, "in.tsv")
     if how == "gzip":
         p += ".gz"
+    if len(text) % 3 == 0:
+        # the path held (and was loaded with) different content a moment ago
+        with (gzip.open(p, "wt", encoding="utf8") if how == "gzip"
+              else open(p, "w", encoding="utf8")) as f:
+            f.write("# Constructed from biom file\n#OTU ID\tearlier-s1\t"
+                    "earlier-s2\nearlier-o1\t5.0\t0.0\nearlier-o2\t0.0\t"
+                    "7.0\n")
+        load_table(p)
+        os.remove(p)
+    if how == "gzip":
         with gzip.open(p, "wt", encoding="utf8", newline="") as f:
             f.write(text)
     else:
@@ -180,7 +191,8 @@ def importer(text, case, d):
                             for i in t.ids(axis="observation")},
                            axis="observation")
         return t, how
-    from biom.cli.table_converter import convert
+    from ..cli import command
+    convert = command("convert")
     out = os.path.join(d, "out.biom")
     args = ["-i", p, "-o", out,
             "--to-json" if how == "convert_json" else "--to-hdf5"]
